@@ -275,4 +275,13 @@ theorem checkValid_sound (strict : Bool) (now : Nat) (b : Bundle) (h : checkVali
         Int.le_trans hlife hle
       omega
 
+/-- The rule table the drivers evaluate is the Spec predicate. -/
+theorem wfRules_iff (now : Nat) (b : Bundle) : (wfRules now b).all (·.2) = true ↔ WellFormed now b := by
+  simp only [wfRules, List.all_cons, List.all_nil, Bool.and_true, Bool.and_eq_true, decide_eq_true_eq]
+  constructor
+  · rintro ⟨h1, h2, h3, h4, h5, h6, h7, h8, h9, h10, h11, h12, h13, h14⟩
+    exact ⟨h1, h2, h3, h4, h5, h6, h7, h8, h9, h10, h11, h12, h13, h14⟩
+  · rintro ⟨h1, h2, h3, h4, h5, h6, h7, h8, h9, h10, h11, h12, h13, h14⟩
+    exact ⟨h1, h2, h3, h4, h5, h6, h7, h8, h9, h10, h11, h12, h13, h14⟩
+
 end Dtn7.Bundle.Lemmas
